@@ -175,7 +175,7 @@ def _expand_text(text):
                 walk(s[i + 1:j - 1], mult * k)
                 i = j + len(m.group())
             else:
-                m = re.match(r"(\\[[pne]\\]|[A-Z][a-z]?)(\\{[0-9+-]+\\})?([0-9]*)", s[i:])
+                m = re.match(r"(\[[pne]\]|[A-Z][a-z]?)(\{[0-9+-]+\})?([0-9]*)", s[i:])
                 acc[m.group(1) + (m.group(2) or "")] = acc.get(m.group(1) + (m.group(2) or ""), 0) + mult * int(m.group(3) or 1)
                 i += len(m.group())
     walk(text, 1)
